@@ -93,10 +93,19 @@ def concretise(opts, text, rng):
     """Replace the symbolic option sets by concrete arguments for this input."""
     from .. import pdbio, util
     if opts == ["PARAMS"]:
-        return ["-p", "CFG:" + json.dumps({"remove_penalised_group": rng.choice((0, 1)), "shared_determinants": rng.choice((0, 1)),
-                                           "min_interaction_energy": rng.choice((0.5, 5.0, 0.1)),
-                                           "max_intrinsic_pka_diff": rng.choice((2.0, 6.0, 0.5)),
-                                           "min_swap_pka_shift": rng.choice((1.0, 0.2))}, sort_keys=True)]
+        ov = {"remove_penalised_group": rng.choice((0, 1)), "shared_determinants": rng.choice((0, 1)),
+              "min_interaction_energy": rng.choice((0.5, 5.0, 0.1)),
+              "max_intrinsic_pka_diff": rng.choice((2.0, 6.0, 0.5)),
+              "min_swap_pka_shift": rng.choice((1.0, 0.2))}
+        # numeric model parameters too: successive calls of one process with different radii,
+        # counts and scalings (anything remembered from an earlier parameter set would show)
+        for k, vals in (("desolv_cutoff", (20.0, 16.0, 18.5)), ("buried_cutoff", (15.0, 12.0)),
+                        ("coulomb_cutoff2", (10.0, 8.0)), ("coulomb_cutoff1", (4.0, 3.5)),
+                        ("Nmin", (280, 240)), ("Nmax", (560, 600)), ("sidechain_interaction", (0.85, 0.7)),
+                        ("common_charge_centre", (0, 1)), ("desolvationAllowance", (0.0, 0.1))):
+            if rng.random() < 0.35:
+                ov[k] = rng.choice(vals)
+        return ["-p", "CFG:" + json.dumps(ov, sort_keys=True)]
     if opts == ["TITRATE"]:
         res = [r for r in util.titratable_residues(pdbio.parse(text)) if r[0] != " "]
         if not res:
